@@ -288,6 +288,9 @@ func (e *Env) processFailures(s *Spec, agg *Agg, known *Known) (*Outcome, error)
 		if f.Class == "native-disagreement" {
 			doc.ReplayMode = "native-repetition" // re-runs many native compilations: reproduces with high probability only
 		}
+		if strings.HasPrefix(f.Site, "process:") {
+			doc.ReplayMode = "process-repetition" // several rounds of two fresh processes with different histories
+		}
 		if len(f.Replay) == 0 {
 			return nil, troublef("failure without a replay case: %s %s", f.Key(), f.Detail)
 		}
